@@ -210,7 +210,17 @@ def guard_rules(repo, rep):
     domain = {'lat': (-80, 84), 'lon': (-180, 180), 'zone': (0, 60)}
     ev = Evaluator(repo, opaque={'psfandgridconv', 'alpha_coeff', 'rect_radius'})
     ev.call_function(f, {ps[0]: Rat.sym('lat'), ps[1]: Rat.sym('lon'), ps[2]: Rat.sym('zone')})
-    n = guards.guard_rule(rep, 'R-GUARD', f, ev.raise_conds, domain, 'the band -80..84 / -180..180 / zones 0..60 the projection is specified on', lambda nd: where(f, nd), integer=('zone',))
+    # the quantifier: automatic zone, or an explicit zone whose central meridian is within 30 degrees of the longitude - measured on the
+    # circle (zone 60 for a longitude of -179 is four degrees away)
+    def near(pt):
+        z = pt.get('zone')
+        if z is None or z == 0 or 'lon' not in pt:
+            return True
+        d = abs(pt['lon'] - (6 * z - 183)) % 360
+        return min(d, 360 - d) <= 30
+    n = guards.guard_rule(rep, 'R-GUARD', f, ev.raise_conds, domain, 'the band -80..84 / -180..180 / zones 0..60 the projection is specified on (explicit zones within 30 degrees of the longitude)',
+                          lambda nd: where(f, nd), integer=('zone',), constraint=near,
+                          extra_points={'lon': (-179, -177, -150, -3, 3, 150, 177, 179), 'zone': (1, 2, 5, 30, 31, 56, 59, 60)})
     guards.rejects_outside(rep, 'R-GUARD', f, ev.raise_conds, domain, {'lat': F(1, 10 ** 6), 'lon': F(1, 10 ** 6), 'zone': 1}, lambda nd: where(f, nd),
                            'the band the projection is specified on')
     if n < 3:
